@@ -86,6 +86,12 @@ FIXED = [
     # long side branch merged late, then continued and merged again
     [[], [0], [0], [2], [1, 3], [3], [5], [4, 6], [7], [6], [8, 9]],
     [[], [0], [1], [2], [3]],
+    # an old side branch (1.1.1 = r4, off revision 1) merged AFTER a younger one (3.1.1 = r5):
+    # newest first the list reads 6, 1.1.1, 5, 3.1.1, 4, 3, 2, 1
+    [[], [0], [1], [2], [0], [2], [3, 5], [6, 4]],
+    # r5 = 2.1.2 is itself a merge (of 2.2.1 = r4) on a side branch, and the mainline below its
+    # branch point contains another merge (r2 merges r1): depths from r5 read 1, 2, 1, 0, 1, 0
+    [[], [0], [0, 1], [2], [2], [3, 4], [2], [6, 5]],
 ]
 
 
@@ -116,7 +122,7 @@ class Histories:
 
     def source(self, g, extra=None):
         from breezy.transport import get_transport
-        key = json.dumps([g, extra], sort_keys=True)
+        key = json.dumps(g) + repr(sorted((extra or {}).items(), key=repr))
         if key not in self.cache:
             while len(self.cache) >= self.keep:
                 k0 = next(iter(self.cache))
@@ -142,7 +148,7 @@ class Histories:
         """A second branch (own repository) holding the ancestry of `tip`."""
         from breezy import controldir
         src = self.source(g, extra)
-        key = json.dumps([g, extra], sort_keys=True)
+        key = json.dumps(g) + repr(sorted((extra or {}).items(), key=repr))
         self.n += 1
         cd = controldir.ControlDir.create(self.url + "o%d" % self.n,
                                           format=controldir.format_registry.make_controldir("2a"))
